@@ -193,7 +193,7 @@ func c14ECH() *explore.Scenario {
 		Name: "ech-accepted-and-rejected",
 		Run: func(x *explore.X) (r explore.Result) {
 			g := clients[x.Choose("client", len(clients))]
-			mode := x.Choose("ech", 3)       // 0 accepted, 1 rejected with retry configs, 2 rejected without
+			mode := x.Choose("ech", 3)        // 0 accepted, 1 rejected with retry configs, 2 rejected without
 			pubCert := x.Choose("pubcert", 3) // rejected: 0 good public-name cert, 1 untrusted, 2 cert for the SECRET name only
 			nameToVerify := []string{"", "*"}[x.Choose("nametoverify", 2)]
 			ech := peer.MakeECH(peer.ECHParams{ConfigID: 7, PublicName: "public.example", MaxNameLen: 32})
